@@ -252,9 +252,15 @@ def run(tier, seed):
             add("SIGINT at conductor %s" % st, e2e_play(scene_x="quick"), 8, 2, sig=(0.5, signal.SIGINT), points="conduct.%s=sleep:700ms" % st)
     else:
         add("final cleanup hangs (10 s time-out)", e2e_play(scene_x="quick", cleanup="if [ -e ran ]; then " + CLEAN + "; sleep 40; fi; touch ran; " + CLEAN), 16, None, expect_fail=True)
-    results = e2e.run_many([f["play"] for f in faults], workers=8)
+    def run_and_scan(pl):
+        # what a play left behind is looked at as soon as it has ended (not when the longest play has)
+        r_ = pl.run()
+        time.sleep(0.4)
+        r_["left"] = leftover(os.path.basename(r_["cwd"]))
+        return r_
+    with ThreadPoolExecutor(max_workers=8) as ex:
+        results = list(ex.map(run_and_scan, [f["play"] for f in faults]))
     shutil.rmtree(slowbin, ignore_errors=True)
-    time.sleep(0.4)
     for f, r in zip(faults, results):
         rep.case(("fault", f["name"]))
         rep.count("fault-plays")
@@ -279,7 +285,7 @@ def run(tier, seed):
             per = {a: who.count(a) for a in cast}
             if any(v != f["cleanups"] // ncast for v in per.values()):
                 problems.append("cleanup runs per actor directory %s, every actor is due %d" % (per, f["cleanups"] // ncast))
-        left = leftover(os.path.basename(r["cwd"]))
+        left = r["left"]
         if left and not f["allow_left"]:
             problems.append("processes left running: %s" % left[:4])
         if f["allow_left"] and not left:
